@@ -307,6 +307,32 @@ def check(repo: Repo, run: Run) -> None:
             run.inconclusive("C18.B7", "c7n_rewrite", why)
         else:
             run.ob("C18.B7", "c7n_rewrite|entry", verdict, why, site)
+    # B8: the value-clause templates (atomic_op_map) are pasted bare into every join: each entry, with atoms for its
+    # fields, must bind at least as tightly as `&&` (or be parenthesised); an entry with a top-level `||`
+    # or `?:` is captured by the surrounding `&&` ([P, absent(k)] -> `P && ! has(k) || absent(k)`)
+    from ..core.consteval import ConstEval as _CE, NotConstant as _NC
+
+    try:
+        aom = _CE(mod, mod.cls("C7N_Rewriter")).class_attr(mod.cls("C7N_Rewriter"), "atomic_op_map")
+    except (_NC, ValueError):
+        aom = None
+    if not isinstance(aom, dict):
+        run.inconclusive("C18.B8", "atomic_op_map", "the operator table is not a constant dict of templates")
+    else:
+        n8 = 0
+        for k, v in sorted(aom.items()):
+            if not isinstance(v, str):
+                continue
+            n8 += 1
+            t0 = FMT_FIELD.sub(lambda m: "F" + (m.group(1) or "0"), v)
+            c0 = parse_class(g, t0)
+            if c0 is None:
+                continue  # not CEL at all: C19.V2's finding
+            run.ob("C18.B8", f"atomic_op_map[{k}]", RANK[c0] >= RANK["AND"],
+                   f"op `{k}` emits `{v}` ({c0}): " + ("binds at least as tightly as `&&` (associative with the join, tighter than `||`)" if RANK[c0] >= RANK["AND"] else
+                                                       "its top-level operator binds looser than the `&&` the clause is joined with, so a sibling clause captures part of it"),
+                   str(mod.path))
+        run.floor("C18.B8", n8, 15)
     # B5 -----------------------------------------------------------------
     for b in branches:
         bad = [c for c in b["calls"] if c != "level + 1"]
